@@ -32,7 +32,7 @@ REAL_VS_STUB = {"real": ["solvers.greedy / largest_coalition / random", "run.gre
 ASSUMPTIONS = ["rewards used by the oracle are recomputed on fresh objects (bit-identical to the environment's by C08)",
                "randomised expected-greedy may pick any coalition within its documented 1e-6 of the minimum",
                "expected-greedy is called with a step limit not exceeding the number of explorable coalitions"]
-PROBES = ["solver_reused_on_second_environment", "initial_knowledge_beyond_minimal", "state_with_ties", "state_best_differs_from_worst", "greedy_checked", "greedy_worst_checked",
+PROBES = ["second_search_on_same_environment", "solver_reused_on_second_environment", "initial_knowledge_beyond_minimal", "state_with_ties", "state_best_differs_from_worst", "greedy_checked", "greedy_worst_checked",
           "largest_checked", "random_checked", "expected_greedy", "expected_greedy_randomised",
           "state_after_unstep", "several_sampled_games"]
 TIERS = {
@@ -229,13 +229,23 @@ def run_expected_greedy(sim: Sim) -> None:
     prelude.warm_process(sim)
     cache: dict = {}
     configs = [(1 + sim.choose(16, "processes"), sim.pick(["fork", "fresh"], "image")) for _ in range(2 + sim.choose(2, "n-configs"))]
+    shared_env = None
+    reuse_env = sim.flip(1, 2, "reuse-one-environment")
     for p, image in configs:
         sim.op("expected_greedy", p, image)
         sim.mutations += 1
-        c = {**ctx, "processes": p, "image_model": image}
-        src = em.ListSource(values, n)
+        c = {**ctx, "processes": p, "image_model": image, "environment_reused": reuse_env}
         with sim.guard("C13.expected_greedy_raised"):
-            env = em.make_env(n, comp_name, src, gap, None, initial_extra=extras)
+            if reuse_env and shared_env is not None:
+                env, src = shared_env  # a second search on the same environment object
+                src.drawn = src.drawn - (src.drawn % len(values)) + len(values) + 2  # same sampled games again
+                sim.probe("second_search_on_same_environment")
+            else:
+                src = em.ListSource(values, n)
+                env = em.make_env(n, comp_name, src, gap, None, initial_extra=extras)
+                shared_env = (env, src)
+            layout_before = ([c_.id for c_ in env.explorable_coalitions], np.array(env.action_masks()).tobytes(),
+                             games.snapshot(env.incomplete_game))
             drawn_before = src.drawn
             with simpool.installed(sim, image):
                 curve, chosen = get_greedy_rewards(env, max_steps, reps, gap, processes=p,
@@ -243,6 +253,11 @@ def run_expected_greedy(sim: Sim) -> None:
         sampled = [values[(drawn_before + i) % len(values)] for i in range(reps)]
         curve = np.array(curve)
         sim.checked()
+        layout_after = ([c_.id for c_ in env.explorable_coalitions], np.array(env.action_masks()).tobytes(),
+                        games.snapshot(env.incomplete_game))
+        if layout_after[0] != layout_before[0] or layout_after[1] != layout_before[1]:
+            sim.fail("C13.expected_greedy_changed_the_environment",
+                     {**c, "explorable_before": layout_before[0], "explorable_after": layout_after[0]})
         if curve.shape != (max_steps + 1, reps) or len(chosen) != max_steps:
             sim.fail("C13.expected_greedy_shape", {**c, "shape": list(curve.shape), "chosen": list(chosen)})
         if len(set(chosen)) != len(chosen) or any(x not in explorable for x in chosen):
